@@ -14,11 +14,12 @@ Whole-MDIB equality is a runtime fact and NOT decided.  Decided (structural nece
 from __future__ import annotations
 
 import ast
+import re
 
 from engine.cfg import call_name, cfg_of
 from engine.errors import AnalysisError
 from engine.repo import walk_no_nested
-from engine.util import calls_in, dotted, local_assignments, unparse
+from engine.util import calls_in, dotted, local_assignments, unparse, xsrc
 
 from .c11 import index_key_attrs
 
@@ -149,7 +150,7 @@ def run(ctx):  # noqa: C901, PLR0912, PLR0915
     a2o = {k.attr: v.value for k, v in zip(dicts[0].keys, dicts[0].values)
            if isinstance(k, ast.Attribute) and isinstance(v, ast.Constant)}
     sp = repo.func('sdc11073.consumer.consumerimpl._NotificationsSplitter.on_notification')
-    src = unparse(sp.node)
+    src = xsrc(sp)
     ctx.ob('C01.R1', 'splitter sets the observable', 'self._lookup.get(message_data.action)' in src and
            'setattr(self._sdc_consumer, observable_name, message_data)' in src,
            'the splitter assigns the received message to the observable its action maps to', fi=sp)
@@ -226,8 +227,8 @@ def run(ctx):  # noqa: C901, PLR0912, PLR0915
                        witness={'facts': facts})
     # each send_* implementation passes its own report's action and version group on
     for name, (cls_name, sfi) in sorted(s2c.items()):
-        src = unparse(sfi.node)
-        ok = 'send_to_subscribers(' in src and ('action.value' in src) and 'mdib_version_group' in src
+        src = xsrc(sfi)
+        ok = 'send_to_subscribers(' in src and bool(re.search(r'Actions\.\w+\.value|action\.value', src)) and 'mdib_version_group' in src
         ctx.ob('C01.R1', f'{sfi.cls.name}.{name} hands over', ok,
                f'{name} sends a {cls_name} with its own action value and the version group', fi=sfi)
 
